@@ -31,7 +31,7 @@ def o_trunc(case):
     hdr = 3 if ident.startswith("4076") else 2
     # first bit of the first group / optional part
     first_group_bit = next((it.bit0 for it in w.items if it.idx), None)
-    digs = []
+    cnt = 0
     evals = 0
     cls = set()
     for cut in range(len(full) - 1, hdr - 1, -1):
@@ -58,8 +58,8 @@ def o_trunc(case):
         if "NSat" in w.vals and cut * 8 < 169 + w.vals["NSat"] * w.vals["NSig"]:
             cls.add("cut-inside-msm-masks")
         if inside_group or before_group:
-            digs.append(digest([ident, case["payload"], cut]))
-    return Res(nontrivial=bool(digs), classes=sorted(cls), evals=evals, digests=digs)
+            cnt += 1
+    return Res(nontrivial=bool(cnt), classes=sorted(cls), evals=evals, count=cnt)
 
 
 def plan_trunc(tier, shard, nshards):
